@@ -67,6 +67,17 @@ def check_cloud(case, ctx):
     ctx.check(len(got) == 4, "get_region must return 4 values")
     exp = (min(case["e"]), max(case["e"]), min(case["n"]), max(case["n"]))
     ctx.check(tuple(float(v) for v in got) == exp, "get_region %r is not the tight bounding box %r", got, exp)
+    # the same values as sorted axis vectors of a grid: pandas Index objects and xarray dimension coordinates, ascending or descending
+    if e.ndim == 1:
+        import pandas as pd
+        import xarray as xr
+
+        for direction in (1, -1):
+            se, sn = np.sort(np.asarray(e, dtype="float64"))[::direction], np.sort(np.asarray(n, dtype="float64"))[::direction]
+            for name, (ce, cn) in (("pandas.Index", (pd.Index(se), pd.Index(sn))),
+                                   ("xarray dimension coordinate", (xr.DataArray(se, dims="x", coords={"x": se}).x, xr.DataArray(sn, dims="y", coords={"y": sn}).y))):
+                alt = vd.get_region((ce, cn))
+                ctx.check(tuple(float(v) for v in alt) == exp, "get_region of %s %s axes is %r, the bounding box is %r", "ascending" if direction == 1 else "descending", name, alt, exp)
     # every point is inside its own bounding region
     own = vd.inside(pcoords, got)
     ctx.check(np.asarray(own).shape == e.shape and np.all(own), "some points are outside their own bounding region")
